@@ -445,6 +445,7 @@ structure HQ0 (cfg : Cfg) (G : Nat) (n : Net) (x y : Nat) (stx sty : NetStation)
   lis : LLOkX cfg G stx.s.p.address n.bus (r + (cfg.b66 : Nat) + (cfg.slot : Nat) + (cfg.P : Nat)) y sty r0 hd none dn rs lY coll
   early : n.bus.seen.getD y 0 < r + ((cfg.ce 5 : Nat) : Int)
   py : sty.s.p.rate = cfg.rate ∧ sty.s.p.slotBits = cfg.slotBits
+  pbx : stx.s.pendingBytes = 0
   starts : ∀ t ∈ n.bus.txs, t.start ≤ tl
   seens : n.bus.seen.getD x 0 ≤ tl ∧ n.bus.seen.getD y 0 ≤ tl
 
@@ -531,7 +532,7 @@ theorem hq0_claimant {cfg : Cfg} {G : Nat} {n : Net} {x y : Nat} {stx sty : NetS
   cases hst0
   rw [hup] at hset
   have hsy : n'.bus.seen.getD y 0 = n.bus.seen.getD y 0 := by rw [hbus]; exact seen_set_other n.bus x y now hxy
-  refine ⟨n', _, hp, rfl, ⟨hS, h.stx_st, h.stx_gap, ?_, h.rsne, h.others, ?_, h.yx, ?_, ?_, ?_, ?_, ?_, ?_, ?_⟩⟩
+  refine ⟨n', _, hp, rfl, ⟨hS, h.stx_st, h.stx_gap, ?_, h.rsne, h.others, ?_, h.yx, ?_, ?_, ?_, ?_, ?_, ?_, ?_, ?_⟩⟩
   · rw [hbus]
     exact ⟨h.logR.rate, h.logR.corrupt, h.logR.chained, h.logR.live, h.logR.own, h.logR.kinds⟩
   · rw [hset, List.getElem?_set_ne hxy]; exact h.gy
@@ -540,6 +541,7 @@ theorem hq0_claimant {cfg : Cfg} {G : Nat} {n : Net} {x y : Nat} {stx sty : NetS
   · rw [hbus]; exact h.lis.other x now hxy
   · rw [hsy]; exact hearly
   · exact h.py
+  · exact h.pbx
   · rw [hbus]; exact fun t ht => Int.le_trans (h.starts t ht) htl
   · rw [hseen, hsy]; exact ⟨Int.le_refl _, Int.le_trans h.seens.2 htl⟩
 
@@ -555,8 +557,10 @@ structure HQ1 (cfg : Cfg) (n : Net) (x y : Nat) (stx sty : NetStation) (r h1 : I
   sty_st : sty.s.st = .listenToken (some stx.s.p.address) coll
   yx : y ≠ x
   reg : r + ((cfg.ce 5 : Nat) : Int) ≤ h1 ∧ h1 < r + ((cfg.ce 5 : Nat) : Int) + (cfg.P : Nat)
+  ywait : n.bus.seen.getD y 0 ≤ h1 + (cfg.b33 : Nat) ∧ h1 ≤ n.bus.seen.getD y 0
   tto : cfg.slot + 3 * cfg.P + cfg.ce 0 + 2 ≤ sty.s.p.tokenLostTimeout
   allx : ∀ t ∈ n.bus.txs, t.sender = x
+  pbx : stx.s.pendingBytes = 0
   starts : ∀ t ∈ n.bus.txs, t.start ≤ tl
   seens : n.bus.seen.getD x 0 ≤ tl ∧ n.bus.seen.getD y 0 ≤ tl
 
@@ -634,7 +638,7 @@ theorem hq0_listener {cfg : Cfg} {G : Nat} {n : Net} {x y : Nat} {stx sty : NetS
     exact ⟨hsoloX, by rw [haddr]; exact h.stx_st, by rw [haddr]; exact h.stx_gap, hlogR', by rw [haddr]; exact hlast,
       by rw [haddr]; exact hoth, List.getElem?_set_self h.yl, h.yx, by simp only [List.length_set]; exact h.ys,
       by simp only [List.length_set]; exact h.yl, hX, hearly', by show c.s.p.rate = _ ∧ c.s.p.slotBits = _; rw [hp]; exact h.py,
-      fun t ht => Int.le_trans (h.starts t ht) htl, hseensNew⟩
+      h.pbx, fun t ht => Int.le_trans (h.starts t ht) htl, hseensNew⟩
   rcases hres with hX | ⟨k, d, hk1, hdm, hfl, hlastd, hX⟩
   · exact .inl ⟨hd, dn, rs, _, stillQ0 hd dn rs _ hX h.rsne h.others hcrs hposrs⟩
   · by_cases hdr : rs.drop k = []
@@ -662,7 +666,8 @@ theorem hq0_listener {cfg : Cfg} {G : Nat} {n : Net} {x y : Nat} {stx sty : NetS
       obtain ⟨x1, x2, x3, x4, x5, x6, x7, x8, x9, x10, x11, x12, x13, x14, x15, x16⟩ := hX
       have hdn' : ({ n.bus with seen := n.bus.seen.set y now } : Bus).txs = dn ++ rs.take k := by
         have := x8; simpa using this
-      refine ⟨hsoloX, by rw [haddr]; exact h.stx_st, by rw [haddr]; exact h.stx_gap, ?_, x15, h.yx, ?_, ?_, ?_,
+      refine ⟨hsoloX, by rw [haddr]; exact h.stx_st, by rw [haddr]; exact h.stx_gap, ?_, x15, h.yx, ?_,
+        (by rw [seen_set_self _ _ _ h.ys]; omega), ?_, ?_, h.pbx,
         fun t ht => Int.le_trans (h.starts t ht) htl, hseensNew⟩
       · refine ⟨hs.rate, hs.drops, hs.corrupt, hs.chained, hs.live, hs.pos, ?_, ?_, by simp only [List.length_set]; exact h.yl,
           by simp only [List.length_set]; exact h.ys, List.getElem?_set_self h.yl, x1, x2, x3, x4, ?_, x13,
@@ -721,5 +726,221 @@ theorem hq0_listener {cfg : Cfg} {G : Nat} {n : Net} {x y : Nat} {stx sty : NetS
         rw [this] at hcrs
         exact (List.pairwise_append.1 hcrs).2.1
       · exact fun t ht => hposrs t (List.mem_of_mem_drop ht)
+
+/-- Another station was polled without transmitting: `Solo` is untouched. -/
+theorem Solo.otherPoll {cfg : Cfg} {n n' : Net} {x : Nat} {st : NetStation} {l : Int} (h : Solo cfg n x st l) (i : Nat) (now : Int)
+    (sti : NetStation) (hix : i ≠ x) (hbus : n'.bus = { n.bus with seen := n.bus.seen.set i now })
+    (hset : n'.stations = n.stations.set i sti) : Solo cfg n' x st l := by
+  refine ⟨by rw [hbus]; exact h.rate, by rw [hbus]; exact h.drops, by rw [hbus]; exact h.corrupt, by rw [hbus]; exact h.chained,
+    by rw [hbus]; exact h.live, by rw [hbus]; exact h.pos, ?_, by rw [hbus]; exact h.ends,
+    by rw [hset, List.length_set]; exact h.xl, by rw [hbus]; simp only [List.length_set]; exact h.xs,
+    by rw [hset, List.getElem?_set_ne hix]; exact h.gx, h.online, h.alive, h.inv, h.son, h.rx, h.stamp, h.prate, h.pslot⟩
+  rw [hbus]
+  simp only
+  rw [seen_set_other _ _ _ _ hix]
+  exact h.done
+
+/-- The reply of the listener `y` (address `aH`) to `aL`, sent at `q`. -/
+def rpTx (y aL aH : Nat) (state : ResponseState) (q : Int) : Transmission :=
+  { start := q, sender := y, bytes := statusResponseBytes aL aH state, dropped := false }
+
+/-- **Phase Q1, the claimant is polled**: its slot time has not run out; nothing happens. -/
+theorem hq1_claimant {cfg : Cfg} {n : Net} {x y : Nat} {stx sty : NetStation} {r h1 : Int} {coll : Nat} {tl : Int}
+    (h : HQ1 cfg n x y stx sty r h1 coll tl) (hok : cfg.Ok) (now : Int) (htl : tl ≤ now)
+    (hown : n.bus.seen.getD x 0 < now) (hgy : now ≤ n.bus.seen.getD y 0 + (cfg.P : Nat)) :
+    ∃ n' c, n.poll x now = (n', [], some (.ok c)) ∧ c.tx = none ∧ HQ1 cfg n' x y stx sty r h1 coll now := by
+  have hr := hok.rate
+  have hmar := hok.margin
+  have hc5 := cfg.ce5 hr
+  have hs := h.solo
+  have hreg := h.reg
+  have hyw := h.ywait
+  have hno : stx.s.st ≠ .offline ∧ stx.s.st ≠ .passiveIdle := by rw [h.stx_st]; simp
+  have hup : upSt stx { s := stx.s, apps := stx.apps, rx := [] } = stx := by unfold upSt; rw [← hs.rx]
+  have hxy : x ≠ y := Ne.symm h.yx
+  have hpoll : ∃ n', n.poll x now = (n', [], some (.ok { s := stx.s, apps := stx.apps, rx := [] })) ∧
+      Solo cfg n' x stx (r + (cfg.b66 : Nat)) ∧ n'.bus.seen.getD x 0 = now := by
+    by_cases hle : now ≤ r + (cfg.b66 : Nat)
+    · exact solo_ongoing hs hr now hown hle hno.1 hno.2
+    · have hdw : dispatch { s := stx.s, apps := stx.apps, rx := [] } now = .ok { s := stx.s, apps := stx.apps, rx := [] } := by
+        unfold dispatch
+        simp only [h.stx_st]
+        rw [claimAwait_exact _ now (r + (cfg.b66 : Nat)) 1 sty.s.p.address h.stx_st rfl hs.stamp h.stx_gap
+          (hs.inv.await2 _ h.stx_st).2]
+        rw [if_neg (by rw [hs.slot]; omega)]
+      obtain ⟨n', hp, hS, hseen⟩ := solo_step hs hr now hown (by omega) _ hno.1 hno.2 hdw (r + (cfg.b66 : Nat)) hs.son rfl rfl
+        hs.stamp (Int.le_refl _) (fun b hb => by cases hb)
+      rw [hup] at hS
+      exact ⟨n', hp, hS, hseen⟩
+  obtain ⟨n', hp, hS, hseen⟩ := hpoll
+  obtain ⟨hbus, st0, hst0, hset, -⟩ := Net.poll_bus n x now n' [] _ hp
+  rw [hs.deliver hr now (Int.le_of_lt hown)] at hbus
+  simp only at hbus
+  rw [hs.gx] at hst0
+  cases hst0
+  rw [hup] at hset
+  have hsy : n'.bus.seen.getD y 0 = n.bus.seen.getD y 0 := by rw [hbus]; exact seen_set_other n.bus x y now hxy
+  have hsY := h.soloY
+  refine ⟨n', _, hp, rfl, ⟨hS, h.stx_st, h.stx_gap, ?_, h.sty_st, h.yx, h.reg, by rw [hsy]; exact hyw, h.tto, ?_, h.pbx, ?_, ?_⟩⟩
+  · exact hsY.otherPoll x now stx hxy hbus hset
+  · rw [hbus]; exact h.allx
+  · rw [hbus]; exact fun t ht => Int.le_trans (h.starts t ht) htl
+  · rw [hseen, hsy]; exact ⟨Int.le_refl _, Int.le_trans h.seens.2 htl⟩
+
+/-! ## Phase Q2: the reply is on the bus, the claimant receives it -/
+
+/-- **Reply on the bus** (sent by `y` at `q`, report `state`): the listener is done (`Solo`, stamp `q + bits 66`); the
+claimant `x` (stamp `lX`) still awaits: its buffer holds exactly what has arrived of the reply, which is
+incomplete, and the next character arrives before its slot time runs out. -/
+structure HQ2 (cfg : Cfg) (n : Net) (x y : Nat) (stx sty : NetStation) (r q : Int) (state : ResponseState) (lX : Int)
+    (tl : Int) : Prop where
+  soloY : Solo cfg n y sty (q + (cfg.b66 : Nat))
+  gx : n.stations[x]? = some stx
+  xl : x < n.stations.length
+  xs : x < n.bus.seen.length
+  xon : stx.online = true ∧ stx.dead = false ∧ Inv stx.s stx.apps ∧ stx.s.online = true ∧
+    stx.s.p.rate = cfg.rate ∧ stx.s.p.slotBits = cfg.slotBits
+  stx_st : stx.s.st = .claimToken (.scanAwait sty.s.p.address)
+  stx_gap : stx.s.gap = .doPoll sty.s.p.address
+  yx : y ≠ x
+  split : ∃ dnx, n.bus.txs = dnx ++ [rpTx y stx.s.p.address sty.s.p.address state q] ∧
+    ∀ o ∈ dnx, o.sender = x ∧ cEnd cfg o ≤ r + (cfg.b66 : Nat) + 1
+  rxX : stx.rx = arrived cfg [rpTx y stx.s.p.address sty.s.p.address state q] (n.bus.seen.getD x 0)
+  pendX : stx.s.pendingBytes ≤ (arrived cfg [rpTx y stx.s.p.address sty.s.p.address state q] (n.bus.seen.getD x 0)).length
+  headX : cvis cfg (rpTx y stx.s.p.address sty.s.p.address state q) (n.bus.seen.getD x 0) < 6
+  stampX : stx.s.lastBusActivity = some lX
+  lXge : r + (cfg.b66 : Nat) ≤ lX
+  slotok : q + ((cfg.ce (cvis cfg (rpTx y stx.s.p.address sty.s.p.address state q) (n.bus.seen.getD x 0)) : Nat) : Int) ≤
+    lX + (cfg.slot : Nat)
+  starts : ∀ t ∈ n.bus.txs, t.start ≤ tl
+  seens : n.bus.seen.getD x 0 ≤ tl ∧ n.bus.seen.getD y 0 ≤ tl
+
+theorem tokenLost_false (s : Station) (now l : Int) (hl : s.lastBusActivity = some l) (h1 : l ≤ now)
+    (h2 : now < l + (s.p.tokenLostTimeout : Nat)) : ¬ TokenLost s now := by
+  unfold TokenLost
+  rw [hl]
+  simp only [Option.getD_some]
+  omega
+
+/-- **Phase Q1, the listener is polled**: before the end of its synchronisation pause nothing happens; at the first
+poll after it, it sends the status reply (phase Q2). -/
+theorem hq1_listener {cfg : Cfg} {n : Net} {x y : Nat} {stx sty : NetStation} {r h1 : Int} {coll : Nat} {tl : Int}
+    (h : HQ1 cfg n x y stx sty r h1 coll tl) (hok : cfg.Ok) (now : Int) (htl : tl ≤ now)
+    (hown : n.bus.seen.getD y 0 < now) (hgy : now ≤ n.bus.seen.getD y 0 + (cfg.P : Nat))
+    (hsx : n.bus.seen.getD x 0 ≤ r + (cfg.b66 : Nat) + (cfg.slot : Nat)) :
+    ∃ n' c, n.poll y now = (n', [], some (.ok c)) ∧
+      ((c.tx = none ∧ HQ1 cfg n' x y stx (upSt sty c) r h1 coll now) ∨
+       (c.tx = some (statusResponseBytes stx.s.p.address sty.s.p.address (listenReport sty.s stx.s.p.address)) ∧
+          h1 + (cfg.b33 : Nat) < now ∧ now ≤ h1 + (cfg.b33 : Nat) + (cfg.P : Nat) ∧
+          HQ2 cfg n' x y stx (upSt sty c) r now (listenReport sty.s stx.s.p.address) (r + (cfg.b66 : Nat)) now)) := by
+  have hr := hok.rate
+  have hmar := hok.margin
+  have hc5 := cfg.ce5 hr
+  have hc0 := cfg.ce_pos hr 0
+  have hs := h.solo
+  have hsY := h.soloY
+  have hreg := h.reg
+  obtain ⟨hyw1, hyw2⟩ := h.ywait
+  have htto := h.tto
+  have hno : sty.s.st ≠ .offline ∧ sty.s.st ≠ .passiveIdle := by rw [h.sty_st]; simp
+  have hxy : x ≠ y := Ne.symm h.yx
+  have hb33 : sty.s.p.bits 33 = cfg.b33 := hsY.b33
+  have hlt : h1 < now := by omega
+  have hnlt : now < h1 + (sty.s.p.tokenLostTimeout : Nat) := by omega
+  have htl0 : ¬ TokenLost sty.s now := tokenLost_false sty.s now h1 hsY.stamp (by omega) hnlt
+  have hupY : upSt sty { s := sty.s, apps := sty.apps, rx := [] } = sty := by unfold upSt; rw [← hsY.rx]
+  have hdelY := hsY.deliver hr now (Int.le_of_lt hown)
+  have hxl : x < n.stations.length := hs.xl
+  by_cases hw : now ≤ h1 + (cfg.b33 : Nat)
+  · -- still within the synchronisation pause
+    have hdw : dispatch { s := sty.s, apps := sty.apps, rx := [] } now = .ok { s := sty.s, apps := sty.apps, rx := [] } := by
+      unfold dispatch
+      simp only [h.sty_st]
+      rw [C12.listen_reply_waits { s := sty.s, apps := sty.apps, rx := [] } now stx.s.p.address coll h.sty_st htl0
+        (by rw [syncOver_iff]; simp only [hsY.stamp, Option.getD_some]; rw [hb33]; omega)]
+      rw [stamped_of_some _ now h1 hsY.stamp]
+    obtain ⟨n', hp, hS, hseen⟩ := solo_step hsY hr now hown hlt _ hno.1 hno.2 hdw h1 hsY.son rfl rfl hsY.stamp (Int.le_refl _)
+      (fun b hb => by cases hb)
+    obtain ⟨hbus, st0, hst0, hset, -⟩ := Net.poll_bus n y now n' [] _ hp
+    rw [hdelY] at hbus
+    simp only at hbus
+    rw [hsY.gx] at hst0
+    cases hst0
+    refine ⟨n', _, hp, .inl ⟨rfl, ?_⟩⟩
+    rw [hupY] at hS hset ⊢
+    have hsxx : n'.bus.seen.getD x 0 = n.bus.seen.getD x 0 := by rw [hbus]; exact seen_set_other n.bus y x now h.yx
+    exact ⟨hs.otherPoll y now sty h.yx hbus hset, h.stx_st, h.stx_gap, hS, h.sty_st, h.yx, h.reg,
+      by rw [hseen]; omega, h.tto, by rw [hbus]; exact h.allx, h.pbx,
+      by rw [hbus]; exact fun t ht => Int.le_trans (h.starts t ht) htl,
+      by rw [hseen, hsxx]; exact ⟨Int.le_trans h.seens.1 htl, Int.le_refl _⟩⟩
+  · -- the reply
+    have hdr : dispatch { s := sty.s, apps := sty.apps, rx := [] } now = .ok
+        { s := { (markTx (StationGap.stamped sty.s now) now 6) with
+            st := if sty.s.ring.readyForRing = true then FState.activeIdle none none 0 else FState.listenToken none coll },
+          apps := sty.apps, rx := [],
+          tx := some (statusResponseBytes stx.s.p.address sty.s.p.address (listenReport sty.s stx.s.p.address)) } := by
+      unfold dispatch
+      simp only [h.sty_st]
+      rw [C12.listen_reply { s := sty.s, apps := sty.apps, rx := [] } now stx.s.p.address coll h.sty_st rfl htl0
+        (by rw [syncOver_iff]; simp only [hsY.stamp, Option.getD_some]; rw [hb33]; omega)]
+    have hst' : ({ (markTx (StationGap.stamped sty.s now) now 6) with
+        st := if sty.s.ring.readyForRing = true then FState.activeIdle none none 0 else FState.listenToken none coll } : Station).lastBusActivity
+        = some (now + (cfg.b66 : Nat)) := by
+      unfold markTx
+      simp only [StationGap.stamped_p]
+      rw [show sty.s.p.bits (11 * 6) = cfg.b66 from hsY.bits 66]
+    obtain ⟨cR, hdr', k1, k2, k3, k4, k5⟩ : ∃ cR : Ctx, dispatch { s := sty.s, apps := sty.apps, rx := [] } now = .ok cR ∧
+        cR.s.online = true ∧ cR.s.p = sty.s.p ∧ cR.rx = [] ∧ cR.s.lastBusActivity = some (now + (cfg.b66 : Nat)) ∧
+        cR.tx = some (statusResponseBytes stx.s.p.address sty.s.p.address (listenReport sty.s stx.s.p.address)) :=
+      ⟨_, hdr, hsY.son, rfl, rfl, hst', rfl⟩
+    obtain ⟨n', hp, hS, hseen⟩ := solo_step hsY hr now hown hlt cR hno.1 hno.2 hdr' (now + (cfg.b66 : Nat)) k1 k2 k3 k4
+      (by omega) (fun b hb => by
+        rw [k5] at hb
+        cases hb
+        rw [statusResponseBytes_length]
+        refine ⟨by omega, ?_⟩
+        show now + ((cfg.ce 5 : Nat) : Int) ≤ _
+        omega)
+    obtain ⟨hbus, st0, hst0, hset, -⟩ := Net.poll_bus n y now n' [] cR hp
+    rw [hdelY, k5] at hbus
+    simp only at hbus
+    rw [hsY.gx] at hst0
+    cases hst0
+    have haddrY : (upSt sty cR).s.p.address = sty.s.p.address := by show cR.s.p.address = _; rw [k2]
+    refine ⟨n', cR, hp, .inr ⟨k5, by omega, by omega, ?_⟩⟩
+    have hrate : 0 < n.bus.rate := by rw [hsY.rate]; exact hr
+    obtain ⟨old', e1, e2, e3, e4, e5, e6⟩ := Bus.send_txs { n.bus with seen := n.bus.seen.set y now } y now
+      (statusResponseBytes stx.s.p.address sty.s.p.address (listenReport sty.s stx.s.p.address)) hsY.drops hrate
+    have hsxx : n'.bus.seen.getD x 0 = n.bus.seen.getD x 0 := by
+      rw [hbus, e4]; exact seen_set_other n.bus y x now h.yx
+    have hv0 : cvis cfg (rpTx y stx.s.p.address sty.s.p.address (listenReport sty.s stx.s.p.address) now) (n.bus.seen.getD x 0) = 0 := by
+      apply cvis_zero
+      unfold rpTx
+      simp only
+      have := h.seens.1
+      omega
+    refine ⟨hS, by rw [hset, List.getElem?_set_ne h.yx]; exact hs.gx, by rw [hset, List.length_set]; exact hs.xl,
+      by rw [hbus, e4]; simp only [List.length_set]; exact hs.xs,
+      ⟨hs.online, hs.alive, hs.inv, hs.son, hs.prate, hs.pslot⟩, by rw [haddrY]; exact h.stx_st, by rw [haddrY]; exact h.stx_gap,
+      h.yx, ?_, ?_, ?_, ?_, hs.stamp, Int.le_refl _, ?_, ?_, ?_⟩
+    · rw [haddrY]
+      refine ⟨old', by rw [hbus, e1]; rfl, ?_⟩
+      intro o ho
+      have hm := e2 o ho
+      exact ⟨h.allx o hm, hs.ends o hm (h.allx o hm)⟩
+    · rw [haddrY, hsxx]
+      unfold arrived
+      simp only [List.map_cons, List.map_nil, List.flatten_cons, List.flatten_nil, List.append_nil]
+      rw [hv0, List.take_zero]; exact hs.rx
+    · rw [h.pbx]; exact Nat.zero_le _
+    · rw [haddrY, hsxx, hv0]; omega
+    · rw [haddrY, hsxx, hv0]
+      omega
+    · rw [hbus, e1]
+      intro t ht
+      rcases List.mem_append.1 ht with ht | ht
+      · exact Int.le_trans (h.starts t (e2 t ht)) htl
+      · simp only [List.mem_singleton] at ht; subst ht; exact Int.le_refl _
+    · rw [hseen, hsxx]; exact ⟨Int.le_trans h.seens.1 htl, Int.le_refl _⟩
 
 end PV
